@@ -124,6 +124,236 @@ def go_variant(ctx, variant):
     return ops
 
 
+def gen_variant(ctx):
+    binp = ctx.go_test_build("cmd/generators/gen_ebpf_sync", ["cmd/generators/gen_ebpf_sync/c19_test.go"], "c19gen",
+                             tags="", pkgname="main")
+    if not binp:
+        return None
+    rc, out = ctx.run_harness(binp, "TestVerifC19Gen")
+    ops = os.path.join(ctx.out, "c19gen.ops")
+    if rc != 0 or not os.path.exists(ops):
+        ctx.say("HARNESS-FAILED", out[-3000:])
+        return None
+    return ops
+
+
+class Rng:
+    """splitmix64, seeded: the C-side generators must not depend on Python's hash seed"""
+
+    def __init__(self, seed):
+        self.s = (seed * 0x9E3779B97F4A7C15 + 0xC19) & (2 ** 64 - 1)
+
+    def u64(self):
+        self.s = (self.s + 0x9E3779B97F4A7C15) & (2 ** 64 - 1)
+        z = self.s
+        z = ((z ^ (z >> 30)) * 0xBF58476D1CE4E5B9) & (2 ** 64 - 1)
+        z = ((z ^ (z >> 27)) * 0x94D049BB133111EB) & (2 ** 64 - 1)
+        return z ^ (z >> 31)
+
+    def intn(self, n):
+        return self.u64() % n if n > 0 else 0
+
+
+def build_native(ctx, gen_out):
+    """tproxy.c, unmodified, as a native program with the generated decoders"""
+    rc, out, dt = sh([sys.executable, os.path.join(VERIF, "translators", "c19_c", "gen_native.py"), gen_out], timeout=300)
+    ctx.log.write(f"$ gen_native.py [{dt:.1f}s rc={rc}]\n{out}\n")
+    if rc != 0:
+        ctx.say("TRANSLATOR-FAILED gen_native:", out[-2000:])
+        return None
+    binp = os.path.join(ctx.out, "c19_native")
+    src = os.path.join(REPO, "control", "kern", "tproxy.c")
+    cmd = ["clang", "-O1", "-g", "-Wno-everything", "-I" + os.path.join(VERIF, "harness", "c"), "-I" + gen_out,
+           "-DC19_TPROXY=\"%s\"" % src, os.path.join(VERIF, "harness", "c19", "c19_native.c"), "-o", binp]
+    rc, out, dt = sh(cmd, timeout=600)
+    ctx.log.write(f"$ {' '.join(cmd)} [{dt:.1f}s rc={rc}]\n{out}\n")
+    if rc != 0:
+        ctx.say("HARNESS-BUILD-FAILED native tproxy.c:\n" + out[-3000:])
+        return None
+    return binp
+
+
+def c_images(rng, rec, n):
+    """byte images for one C record: zero, all-ones, counting, one-hot, random; _Bool bytes kept 0/1"""
+    size = rec["size"]
+    imgs = []
+    for i in range(n):
+        mode = i if i < 3 else 3 + rng.intn(2)
+        if mode == 0:
+            b = bytearray(size)
+        elif mode == 1:
+            b = bytearray([0xff] * size)
+        elif mode == 2:
+            b = bytearray([(j + 1) & 0xff for j in range(size)])
+        elif mode == 3:
+            b = bytearray(size)
+            if size:
+                b[rng.intn(size)] = 1 + rng.intn(255)
+        else:
+            b = bytearray(rng.intn(256) for _ in range(size))
+        for l in rec["leaves"]:
+            if l["cls"] == "bool":
+                for k in range(l["count"]):
+                    b[l["off"] + k] &= 1
+        imgs.append((mode, bytes(b)))
+    return imgs
+
+
+def record_layout_dump(ctx):
+    """independent second opinion for the BPF target: clang -fdump-record-layouts (sizeof/align and
+    the offsets of direct members)"""
+    src = os.path.join(REPO, "control", "kern", "tproxy.c")
+    cmd = ["clang", "-target", "bpf", "-I/usr/include/x86_64-linux-gnu", "-D__x86_64__", "-I" + os.path.join(VERIF, "harness", "c"),
+           "-Wno-everything", "-fsyntax-only", "-Xclang", "-fdump-record-layouts", "-x", "c", src]
+    rc, out, dt = sh(cmd, timeout=300)
+    ctx.log.write(f"$ {' '.join(cmd)} [{dt:.1f}s rc={rc}] ({len(out)} bytes)\n")
+    res = {}
+    if rc != 0:
+        return res
+    for blk in out.split("*** Dumping AST Record Layout")[1:]:
+        lines = [l for l in blk.split("\n") if "|" in l]
+        if not lines:
+            continue
+        m = re.match(r"\s*0 \| (struct|union) (\w+)\s*$", lines[0])
+        sz = re.search(r"\[sizeof=(\d+), align=(\d+)", blk)
+        if not m or not sz:
+            continue
+        members = {}
+        for l in lines[1:]:
+            mm = re.match(r"\s*(\d+) \|   (\S.*?) (\w+)\s*$", l)  # depth-1 members only (3 spaces of indent)
+            if mm and not l.split("|", 1)[1].startswith("    "):
+                members[mm.group(3)] = int(mm.group(1))
+        res[m.group(2)] = {"size": int(sz.group(1)), "align": int(sz.group(2)), "members": members}
+    return res
+
+
+def c_side(ctx, gen_out, flow_files):
+    cj = json.load(open(os.path.join(gen_out, "c19_c.json")))
+    binp = build_native(ctx, gen_out)
+    if not binp:
+        return None
+    rng = Rng(ctx.seed)
+    scale = 12 if ctx.tier == "thorough" else 1
+    ops = []
+    dist = {}
+
+    def inc(k, n=1):
+        dist[k] = dist.get(k, 0) + n
+
+    # -- tables: every record, constant, map
+    for r in cj["records"]:
+        ops.append("clayout " + r["name"])
+        inc("clayout")
+        if not r["leaves"] or any(l["cls"] == "recd" for l in r["leaves"]):
+            continue  # kernel-internal records with opaque members: layout only
+        for mode, img in c_images(rng, r, 5 + 8 * scale):
+            ops.append("cdec le %s %s" % (r["name"], img.hex()))
+            inc("cdec.mode%d" % mode)
+    for e in cj["enums"]:
+        for c in e["consts"]:
+            ops.append("cconst " + c["name"]); inc("cconst")
+    for m in cj["macros"] + cj["static_consts"]:
+        ops.append("cconst " + m["name"]); inc("cconst")
+    for m in cj["maps"]:
+        ops.append("cmap " + m["name"]); inc("cmap")
+    # -- keys for the same logical entities the Go harness used
+    cross = []   # (op index, kind, expected-from-Go)
+    for ff in flow_files:
+        for line in read_lines(ff):
+            w = line.split()
+            if w[0] == "flow":
+                _, fam, s, d, sp, dp, proto, gokey, gorev = w
+                cross.append((len(ops), "tuples", (gokey, gorev)))
+                ops.append(f"ctuples le {fam} {s} {d} {sp} {dp} {proto}"); inc("ctuples." + fam)
+            elif w[0] in ("dom", "lpmhost"):
+                _, fam, d, gokey = w
+                d16 = d if fam == "v6" else "00000000000000000000ffff" + d
+                s16 = "%032x" % rng.intn(2 ** 128)
+                mac = "00000000000000000000" + "%012x" % rng.intn(2 ** 48)
+                cross.append((len(ops), w[0], gokey))
+                ops.append(f"croute le {s16} {d16} {mac}"); inc("croute." + w[0])
+            elif w[0] == "portrange":
+                _, a, b, enc = w
+                cross.append((len(ops), "portrange", f"{a}-{b}"))
+                ops.append("creadpr le " + enc); inc("creadpr")
+    # connectivity: every outbound x {tcp, udp, other} x ports x family
+    goconn = {}
+    for ff in flow_files:
+        for line in read_lines(ff):
+            w = line.split()
+            if w[0] == "conn":
+                goconn[(int(w[1]), w[2], w[3], w[4])] = w[5]
+    for ob in range(256):
+        for l4 in (6, 17):
+            for dport in (53, 80, 0, 65535, 5353, 13568):   # 13568 = 0x3500: 53 in the other byte order
+                for v4 in (0, 1):
+                    want = None
+                    if dport != 53:
+                        want = goconn.get((ob, "tcp" if l4 == 6 else "udp", "4" if v4 else "6", "unset" if l4 == 6 else "data"))
+                    cross.append((len(ops), "conn", want))
+                    ops.append(f"cconn {ob} {l4} {dport} {v4}"); inc("cconn")
+    for l4 in (6, 17, 1, 58, 0):
+        for v6 in (0, 1):
+            ops.append(f"clisten {l4} {v6}"); inc("clisten")
+    for i in range(60 * scale):
+        idx = [0, 1, 255, 256, 1023, 1024, 65535, 65536, 2 ** 32 - 1][i] if i < 9 else rng.intn(2 ** 32)
+        v = idx.to_bytes(4, "little").hex() + "00" * 12
+        cross.append((len(ops), "setidx", str(idx)))
+        ops.append("creadidx le " + v); inc("creadidx")
+
+    p_ops, p_impl, p_model = (os.path.join(ctx.out, "c19c." + e) for e in ("ops", "impl", "model"))
+    open(p_ops, "w").write("\n".join(ops) + "\n")
+    with open(p_ops, "rb") as fin, open(p_impl, "wb") as fout:
+        p = subprocess.run([binp], stdin=fin, stdout=fout, stderr=subprocess.PIPE, timeout=1200)
+    ctx.log.write(f"$ c19_native < c19c.ops rc={p.returncode} {p.stderr.decode()[-1000:]}\n")
+    if p.returncode != 0:
+        ctx.report("native build of tproxy.c crashed while computing keys/layouts: rc=%d %s" % (p.returncode, p.stderr.decode()[-300:]),
+                   {"ops": p_ops})
+        return 0
+    n = diff(ctx, "c-native", p_ops, p_impl, p_model)
+    # implementation-level oracle: kernel bytes == control-plane bytes for the same logical entity
+    impl = read_lines(p_impl)
+    bad = 0
+    for i, kind, want in cross:
+        got = impl[i] if i < len(impl) else ""
+        ok = True
+        if kind == "tuples":
+            ok = got == f"key={want[0]} rev={want[1]}"
+        elif kind == "dom":
+            ok = ("dom=" + want) in got.split()
+        elif kind == "lpmhost":
+            ok = ("lpm_d=" + want) in got.split()
+        elif kind in ("portrange", "setidx"):
+            ok = got == want
+        elif kind == "conn":
+            ok = (got == "none") if want is None else (got == want)
+        if not ok:
+            bad += 1
+            if bad <= 5:
+                ctx.report(f"kernel and control plane compute different bytes for the same {kind}: C `{got[:200]}` Go `{str(want)[:200]}` ({ops[i][:160]})",
+                           {"kind": kind, "c_op": ops[i], "c": got, "go": want})
+    ctx.cov["cross_checked_entities"] = len(cross)
+    inc("cross.total", len(cross))
+    # second opinion on the BPF-target layouts
+    dump = record_layout_dump(ctx)
+    ndump = 0
+    for r in cj["records"]:
+        d = dump.get(r["name"])
+        if not d:
+            continue
+        ndump += 1
+        if d["size"] != r["size"] or d["align"] != r["align"]:
+            ctx.report(f"translator disagrees with clang -fdump-record-layouts on {r['name']}: table size/align {r['size']}/{r['align']} dump {d['size']}/{d['align']}",
+                       {"record": r["name"]})
+        for l in r["leaves"]:
+            if "." not in l["path"] and l["path"] in d["members"] and d["members"][l["path"]] != l["off"]:
+                ctx.report(f"translator disagrees with clang -fdump-record-layouts on {r['name']}.{l['path']}: table {l['off']} dump {d['members'][l['path']]}",
+                           {"record": r["name"], "member": l["path"]})
+    ctx.cov["record_layout_dump_records"] = ndump
+    ctx.cov.setdefault("input_distribution", {})["c-native"] = dist
+    return n
+
+
 def diff(ctx, label, ops, impl, model):
     if not ctx.driver("c19drv", ops, model):
         ctx.proof_failures.append("model driver c19drv failed on " + label)
@@ -170,6 +400,31 @@ def run(ctx):
         total += diff(ctx, "go-" + v, ops, ops[:-4] + ".impl", ops[:-4] + ".model")
         stats[v] = json.load(open(os.path.join(ctx.out, f"c19go_{v}.stats.json")))
     ctx.samples = stats[variants[0]]["samples"]
-    ctx.cov["input_distribution"] = {v: s["counters"] for v, s in stats.items()}
+    ctx.cov["input_distribution"] = {"go-" + v: s["counters"] for v, s in stats.items()}
+    # every Go data type of the tables was looked at in-process (except the function-local PARAM literal)
+    seen = set()
+    for v in variants:
+        for op in read_lines(os.path.join(ctx.out, f"c19go_{v}.ops")):
+            if op.startswith("golayout "):
+                seen.add(op.split()[2])
+    gj = json.load(open(os.path.join(gen_out, "c19_go.json")))
+    want = {r["name"] for r in gj["classes"][0]["recs"] if r["name"] != "real.PARAM"}
+    if ctx.tier != "thorough":
+        want = {w for w in want if not w.startswith("stub.") or w in seen or ("real." + w[5:]) not in want}
+    missing = sorted(want - seen)
+    if missing:
+        ctx.report("Go data types in the regenerated tables that the harness never inspected in-process: " + ",".join(missing),
+                   {"missing": missing}, no_input=True)
+
+    ops = gen_variant(ctx)
+    if not ops:
+        return 2
+    total += diff(ctx, "generator", ops, ops[:-4] + ".impl", ops[:-4] + ".model")
+    ctx.cov["input_distribution"]["generator"] = json.load(open(os.path.join(ctx.out, "c19gen.stats.json")))["counters"]
+
+    n = c_side(ctx, gen_out, [os.path.join(ctx.out, f"c19flows_{v}.txt") for v in variants])
+    if n is None:
+        return 2
+    total += n
     return ctx.finish(rule="table items = one (pairing, GOARCH) layout obligation / constant pair / limit / map; "
                            "ops = one real-code evaluation compared with the model", evaluations=total, distinct=total)
